@@ -1141,8 +1141,12 @@ class SymK:
             tries += 1
             if tries > 64:
                 raise Unsupported("ceil/floor: too many candidate values")
-            if ctx.model is None and ctx._check() != "sat":
-                raise Unsupported("no model for the path at ceil/floor")
+            if ctx.model is None:
+                rr = ctx._check()
+                if rr == "unsat":
+                    raise Abort("infeasible path (detected at ceil/floor)")
+                if rr != "sat":
+                    raise Unsupported("no model for the path at ceil/floor")
             fr = Fraction(r.eval(_EnvById(ctx.model)))
             k = math.ceil(fr) if up else math.floor(fr)
             kk = Rat.const(k)
